@@ -198,9 +198,26 @@ CHECKS.update({
         ref="4/C18"),
 })
 
+CHECKS.update({
+    "C09": dict(
+        technique="static analysis: dominance rules on the loader's CFG (exact edge dominance of the not-yet-loaded test and of the is_empty() gate on the "
+                  "still-missing imports), effect classification of the request filters (which module table each consults), value-origin rule for "
+                  "ImportRequest.resolved_path, who-may-construct ModulePath, match-arm reachability for import/export binding kinds, loop-progress rule "
+                  "for the ready-module fixed point; positive-control fixture",
+        text="Decides six structural necessary conditions of the loader's contract, not the behaviour over graphs x schedules: (run-once) the function "
+             "that runs a supplied module's body is reached only for a path tested not to be in loaded_modules; (dependencies-first) it, and the "
+             "installation of the main program's import bindings, are reached only on the is_empty() edge of a list computed from that program's own "
+             "import requests by a filter that consults loaded_modules and not pending_module_sources; (canonical paths) every "
+             "ImportRequest.resolved_path is the result of ModulePath::resolve and the interpreter builds no ModulePath from raw text; (requests once) "
+             "every NeedImports list passes a de-duplication by resolved path; (live bindings) named/default imports are bound through an ImportBinding, "
+             "exports that have a scope binding are published as getters and the stored value only on the no-binding edge, re-exports delegate; "
+             "(termination) every cycle of the ready-module loop runs a module body and the runner removes its module from the pending table first. "
+             "All discharge on the current tree. That result and exports are equal for all supply orders is a matter of run-time values and not decided.",
+        ref="4/C09"),
+})
+
 NOT_APPLICABLE = {
     "C04": "value equivalence with the TypeScript emit; no structural mechanism exists (DESIGN.md 4/C04)",
-    "C09": "behaviour of a fixed-point loader over all graphs x schedules; structural parts are decided under C02/C19",
     "C20": "source positions are run-time values of the source map; no structural rule decides 'inside the offending token'",
 }
 PENDING = "static rules for this property are designed (DESIGN.md section 4) but not yet built; not claimed until they are"
